@@ -68,6 +68,18 @@ fn two(i: u8, j: u8, dont: bool, trailing_idx: Option<usize>) {
     assert!(out.len() == n);
 }
 
+// three of the strings (both shapes of a delimited value, and an undelimited one), concretely, under every setting
+#[kani::proof]
+#[kani::unwind(9)]
+fn split_one_value_3() {
+    let dont: bool = kani::any();
+    let trailing_idx = any_trailing();
+    one(2, dont, trailing_idx);
+    one(6, dont, trailing_idx);
+    one(7, dont, trailing_idx);
+    kani::cover!(dont && trailing_idx == Some(0));
+}
+
 // every one of the eight strings, concretely (the strings are constants: no symbolic pointers), under every setting
 #[kani::proof]
 #[kani::unwind(9)]
@@ -82,15 +94,12 @@ fn split_one_value() {
     kani::cover!(dont && trailing_idx == Some(0));
 }
 
-// pairs: a value with the delimiter next to one of each kind
+// a pair: the exemption of the trailing value is by position in the list
 #[kani::proof]
 #[kani::unwind(9)]
 fn split_two_values() {
     let dont: bool = kani::any();
     let trailing_idx = any_trailing();
-    two(3, 6, dont, trailing_idx);
-    two(6, 1, dont, trailing_idx);
-    two(1, 5, dont, trailing_idx);
-    two(2, 4, dont, trailing_idx);
+    two(2, 6, dont, trailing_idx);
     kani::cover!(dont && trailing_idx == Some(1));
 }
